@@ -40,8 +40,13 @@ pub(crate) struct Parser<'t> {
 
 /// Verification hook: a grammar loop that pushes this many events without consuming a
 /// token is stuck; turn the hang into an attributable panic.
+// Events pushed since the last consumed token. A terminating parse can legitimately push a number
+// of events proportional to the nesting depth without consuming anything (closing `k` unclosed
+// parentheses at end of input pushes about `3k` events), so the limit scales with the input length.
 #[cfg(feature = "oq3_verif")]
-pub const VERIF_NO_PROGRESS_LIMIT: u32 = 2000;
+pub const VERIF_NO_PROGRESS_BASE: usize = 2000;
+#[cfg(feature = "oq3_verif")]
+pub const VERIF_NO_PROGRESS_PER_TOKEN: usize = 8;
 
 static PARSER_STEP_LIMIT: Limit = Limit::new(15_000_000);
 
@@ -315,7 +320,8 @@ impl<'t> Parser<'t> {
         {
             self.verif_since_bump += 1;
             assert!(
-                self.verif_since_bump <= VERIF_NO_PROGRESS_LIMIT,
+                self.verif_since_bump as usize
+                    <= VERIF_NO_PROGRESS_BASE + VERIF_NO_PROGRESS_PER_TOKEN * self.inp.verif_len(),
                 "oq3_verif: no progress"
             );
         }
